@@ -166,8 +166,10 @@ void hk_dead_end(void)
 
 /* thread accounting: every pthread_create must be matched by a join or a detach */
 static _Atomic long n_thr_created, n_thr_joined, n_thr_detached;
+#ifndef MT_OWN_THREAD_HOOKS
 void hk_thread_create(unsigned long th, int ret) { (void)th; if (!ret) atomic_fetch_add(&n_thr_created, 1); }
 void hk_thread_join(unsigned long th) { (void)th; atomic_fetch_add(&n_thr_joined, 1); }
+#endif
 void hk_thread_detach(unsigned long th) { (void)th; atomic_fetch_add(&n_thr_detached, 1); }
 
 static void mt_fatal(const char *msg)
